@@ -55,6 +55,14 @@ def plain_problems(j, path="$"):
 _DOCS = []
 
 
+def _reversed_members(j):
+    if isinstance(j, dict):
+        return {k: _reversed_members(j[k]) for k in reversed(list(j))}
+    if isinstance(j, list):
+        return [_reversed_members(v) for v in j]
+    return j
+
+
 def _json_cycle(x, label, keep_doc=True):
     msgs = []
     try:
@@ -74,6 +82,14 @@ def _json_cycle(x, label, keep_doc=True):
         return msgs + ["%s: from_json_data raised %s: %s" % (label, type(e).__name__, str(e)[:200])]
     if not (y == x):
         msgs.append("%s: from_json_data(parse(serialize(to_json_data(x)))) != x" % label)
+    # a JSON object is an unordered collection: serializers that sort the members (sort_keys, canonical JSON) or emit them in any other order are real cycles too
+    for how, text in (("sorted keys", json.dumps(j, allow_nan=False, sort_keys=True)), ("reversed member order", json.dumps(_reversed_members(j), allow_nan=False))):
+        try:
+            z = CodeData.from_json_data(json.loads(text))
+            if not (z == x):
+                msgs.append("%s: a serialize/parse cycle with %s does not give back x" % (label, how))
+        except Exception as e:
+            msgs.append("%s: from_json_data raised %s after a serialize/parse cycle with %s: %s" % (label, type(e).__name__, how, str(e)[:160]))
     try:
         hash(y)
     except TypeError as e:
@@ -144,6 +160,11 @@ def c07_positions():
     out.append(("flags", mk([[I("RETURN_VALUE", line_number=1)]], future_annotations=True, _nested=True, type=Function(Args(), None, "COROUTINE")), ["pos:flags"]))
     inner = mk([[I("RETURN_VALUE", line_number=1)]], name="inner", type=Function(Args(("p",), ("a",), "r", ("k",), "kw"), "doc\ud800" if False else "doc"))
     out.append(("nested_code", mk([[I("LOAD_CONST", Constant(inner), line_number=1), I("RETURN_VALUE", line_number=1)]]), ["pos:nested-code"]))
+    # nested code whose file name / code name is not valid UTF-8 (compile(src, b"caf\xe9.py", ...) gives 'caf\udce9.py')
+    for fname in ("caf\udce9.py", "\ud800"):
+        inner2 = dataclasses.replace(inner, filename=fname, name="n\udcff")
+        out.append(("nested_code_filename:%r" % fname, dataclasses.replace(mk([[I("LOAD_CONST", Constant(inner2), line_number=1), I("RETURN_VALUE", line_number=1)]], _additional_args=(Constant(inner2, 1),)), filename=fname),
+                    ["pos:nested-code", "pos:filename"]))
     return out
 
 
